@@ -6,8 +6,43 @@ open KM.Util KM.LoginDest
 def startStr : Start → String
   | .pathAbsolute => "path" | .authority => "authority" | .other => "other"
 
-/-- `dest <hex> <parseOK>` ↦ `<hex of filter result> <hex of Location>` -/
+/-- steps of a `flow` op: `B <hex dest> <cookie presented>` (the model, like the code, ignores which
+cookie a begin presents) and `C <attempt whose state> <attempt whose cookie>` -/
+def parseSteps : List String → Option (List FStep)
+  | [] => some []
+  | "B" :: h :: _ :: rest => do
+    let s ← unhex h
+    let r ← parseSteps rest
+    pure (.begin s.toList :: r)
+  | "C" :: i :: j :: rest => do
+    let i ← i.toNat?
+    let j ← j.toNat?
+    let r ← parseSteps rest
+    pure (.callback i j :: r)
+  | _ => none
+
+def isCallback : FStep → Bool
+  | .callback _ _ => true
+  | _ => false
+
+/-- the `url.Parse` oracle as observed by the harness: one bit per begin, about its filtered destination -/
+def oracleOf (steps : List FStep) (bits : List Char) : List Char → Bool :=
+  let dests := steps.filterMap fun | .begin d => some (filter d) | _ => none
+  fun d => match (dests.zip bits).find? (fun x => x.1 == d) with
+    | some (_, b) => b == '1'
+    | none => true
+
+/-- `dest <hex> <parseOK>` ↦ `<hex of filter result> <hex of Location>`;
+`flow <parseOK bits> <steps>` ↦ `flow {<hex Location>|refuse}` (one per callback) -/
 def model : List String → String
+  | "flow" :: bits :: rest =>
+    match parseSteps rest with
+    | some steps =>
+      let outs := frun (oracleOf steps bits.toList) Flow.init steps
+      let rs := (steps.zip outs).filterMap fun (st, o) =>
+        if isCallback st then some (match o with | some l => hex (String.ofList l) | none => "refuse") else none
+      " ".intercalate ("flow" :: rs)
+    | none => "bad-op"
   | ["dest", h, p] =>
     match unhex h, parseBool p with
     | some s, some b =>
